@@ -93,6 +93,10 @@ def one_trace(tid, n, L, plus, rng, iters, root: Path, integer_terminals: bool, 
                 rank = int(rm.meta_id_to_rank[nid])
                 cur, cn = q(rm.regret_matching_strategy(int(nid)))
                 members = [Coalition(viable[i]) for i in range(c) if nid >> i & 1]
+                rng.shuffle(members)
+                cur_list_form, _ = q(rm.regret_matching_strategy(list(members)))     # the same node given as a list of coalitions
+                if cur_list_form != cur:
+                    cn = 1
                 avg, an = q(rm.get_average_strategy(members))
                 reg, _ = q(reg_now[rank])
                 dreg, _ = q(reg_now[rank] - prev_reg[rank])
